@@ -246,15 +246,6 @@ Definition dec_observed (l : list sexp) : option observed :=
   end.
 
 (** ** sanity of the case (promises of the harness the theorems rely on) *)
-Fixpoint sty_closed (E : env) (t : sty) : bool :=
-  match t with StNamed n => ahas n E | StList t' => sty_closed E t' | StNonNull t' => sty_closed E t' end.
-
-Definition env_closed (E : env) : bool :=
-  forallb (fun p => match snd p with
-                    | TInput fields _ => forallb (fun f => sty_closed E (in_type (snd f))) fields
-                    | _ => true
-                    end) E.
-
 Fixpoint lit_strings (l : lit) : list bytes :=
   match l with
   | LString s => [s]
